@@ -15,6 +15,8 @@ thread_local! {
 
 /// requests above this are refused (null), after the size was recorded
 pub const REFUSE_ABOVE: usize = 1 << 30;
+/// an armed region that allocates this often is spinning (e.g. an array reader that never terminates)
+pub const SPIN_COUNT: u64 = 30_000_000;
 
 unsafe impl GlobalAlloc for Meter {
     unsafe fn alloc(&self, layout: Layout) -> *mut u8 {
@@ -22,7 +24,12 @@ unsafe impl GlobalAlloc for Meter {
         if armed {
             let sz = layout.size();
             let _ = MAX_SINGLE.try_with(|m| if sz > m.get() { m.set(sz) });
-            let _ = COUNT.try_with(|c| c.set(c.get() + 1));
+            let n = COUNT.try_with(|c| { c.set(c.get() + 1); c.get() }).unwrap_or(0);
+            if n > SPIN_COUNT {
+                let msg = b"SIM-ALLOC-SPIN\n";
+                libc::write(2, msg.as_ptr() as *const libc::c_void, msg.len());
+                libc::abort();
+            }
             let _ = LIVE.try_with(|l| {
                 l.set(l.get() + sz as isize);
                 let _ = PEAK.try_with(|p| if l.get() > p.get() { p.set(l.get()) });
